@@ -82,6 +82,10 @@ int main() {
         protocol::ChunkPayload payload{}; payload.chunk_id = cid; payload.data = ct; payload.ttl = std::chrono::seconds(60);
         hv::guarded(out, [&] { put_opt(out, decrypt_chunk_with_manifest(protocol::decode_manifest(uri), payload)); });
         (void)ok;
+        // the same replica also reaches the node that already holds the chunk; whatever the verdict, its own lookup must go on
+        // returning the payload (a refusal leaves no trace)
+        hv::guarded(out, [&] { put_opt(out, A.receive_chunk(uri, ct)); });
+        hv::guarded(out, [&] { put_opt(out, A.fetch_chunk(cid)); });
         if (again) {
             // the same chunk id is stored again: new payload, key, nonce and shares replace the first ones everywhere
             hvrd::script.clear(); hvrd::pos = 0;
